@@ -21,6 +21,10 @@
   to its text and attribute values — the normalizer runs BEFORE the escaping — under exactly two side
   conditions (`N` fixes the namespace URIs that get written; with indentation, `N` does not touch the meaning
   of `xml:space` values), both necessary; hence the round trips above for the normalised tree.
+  Failing writer (`C14_write_ok_is_complete`): the Write entry point in front of a writer that may refuse any
+  `write_all` call answers `Ok` only when the writer holds the complete string serialisation — a truncated
+  document is never reported as a success, so every round trip above holds of whatever a successful
+  `serialize_xml_write` left in ANY writer.
 -/
 import XotModel.Lemmas.Entity
 import XotModel.Lemmas.Output
@@ -36,6 +40,7 @@ import XotModel.Lemmas.SerOptDecl
 import XotModel.Lemmas.SerIndentWhere
 import XotModel.Lemmas.SerIndentInner
 import XotModel.Lemmas.NormalizerFullwidth
+import XotModel.Lemmas.WriterXml
 import XotModel.Props.C01
 
 namespace XotModel.Props
@@ -818,5 +823,74 @@ theorem C14_normalizer_space_necessary :
     serializeXmlString c01Env { indentation := some [] } (t.mapText c14SpaceNorm) [] =
       .ok "<k xml:space=\"preserve\"><t/></k>\n".toList ∧
     elementSpace (t.mapText c14SpaceNorm) ≠ elementSpace t := by decide
+
+/-! ### A writer that fails (Model/Writer.lean, `serializeXmlWriteW`) -/
+
+/-- The options theorems above speak about the string `serialize_xml_string` returns.  They transfer to the
+    Write-based entry point in front of ANY writer (one that may refuse a `write_all` call at any point, after
+    letting part of the bytes through): if `serialize_xml_write(_with_normalizer)` returns `Ok(())`, the writer
+    holds exactly the string serialisation under the same parameters (declaration, doctype, indentation, CDATA
+    elements, unescaped_gt) — never a truncated one; otherwise the call returned an error (`Io` at the refused
+    call, or the serialisation's own) and what the writer holds is a prefix of that string. -/
+theorem C14_write_ok_is_complete (P : WriterPolicy) (esc : Escapers) (env : Env) (p : XmlParams) (t : Tree)
+    (start : Path) :
+    ((serializeXmlWriteW P esc env p t start).2 = .ok () →
+        serializeXmlStringWith esc env p t start = .ok (serializeXmlWriteW P esc env p t start).1) ∧
+    (∀ s, serializeXmlStringWith esc env p t start = .ok s →
+        (serializeXmlWriteW P esc env p t start = (s, .ok ()) ∨
+         ((serializeXmlWriteW P esc env p t start).2 = .err .io ∧
+          ∃ rest, s = (serializeXmlWriteW P esc env p t start).1 ++ rest))) := by
+  have hcalls := serializeXmlCalls_eq esc env p t start
+  have hrun := serializeXmlWriteW_eq_replayCalls P esc env p t start
+  rcases replayCalls_outcome P [] (serializeXmlCalls esc env p t start) with hall | hio
+  · -- every call accepted: the never-failing model
+    rw [← hrun, List.nil_append, hcalls] at hall
+    refine ⟨?_, ?_⟩
+    · intro hok
+      rw [hall] at hok ⊢
+      unfold serializeXmlStringWith bufferToString
+      rw [hok]
+    · intro s hs
+      left
+      rw [hall]
+      unfold serializeXmlStringWith bufferToString at hs
+      cases hw : serializeXmlWriteWith esc env p t start with
+      | mk w r =>
+        rw [hw] at hs
+        cases r with
+        | ok u => cases u; simp at hs; rw [hs]
+        | err e => simp at hs
+        | panic => simp at hs
+  · rw [← hrun] at hio
+    refine ⟨?_, ?_⟩
+    · intro hok; rw [hio] at hok; cases hok
+    · intro s hs
+      right
+      refine ⟨hio, ?_⟩
+      obtain ⟨rest, h⟩ := replayCalls_prefix P [] (serializeXmlCalls esc env p t start)
+      rw [← hrun, List.nil_append] at h
+      have h1 : (serializeXmlCalls esc env p t start).1.flatten = (serializeXmlWriteWith esc env p t start).1 :=
+        congrArg Prod.fst hcalls
+      rw [h1] at h
+      unfold serializeXmlStringWith bufferToString at hs
+      cases hw : serializeXmlWriteWith esc env p t start with
+      | mk w r =>
+        rw [hw] at hs h
+        cases r with
+        | ok u => cases u; simp at hs; exact ⟨rest, by rw [← hs]; exact h⟩
+        | err e => simp at hs
+        | panic => simp at hs
+
+/-- Non-vacuity: `<k><t/></k>` with indentation and a declaration; a writer with a budget of 6 calls is left
+    with a truncated document and the call says `Io`; with enough budget it holds the string serialisation. -/
+example :
+    let p : XmlParams := { indentation := some [], declaration := some {} }
+    let t : Tree := .node (.element 4) [.node (.element 5) []]
+    (fun r : Str × Outcome XotError Unit => (String.ofList r.1, r.2)) (serializeXmlWriteW (.budget (some 6)) xmlEscapers c01Env p t [])
+      = ("<?xml version=\"1.0\"?>\n<k>\n", .err .io) ∧
+    (fun r : Str × Outcome XotError Unit => (String.ofList r.1, r.2)) (serializeXmlWriteW (.budget (some 40)) xmlEscapers c01Env p t [])
+      = ("<?xml version=\"1.0\"?>\n<k>\n  <t/>\n</k>\n", .ok ()) ∧
+    (serializeXmlString c01Env p t []).okValue?.map String.ofList = some "<?xml version=\"1.0\"?>\n<k>\n  <t/>\n</k>\n" := by
+  decide
 
 end XotModel.Props
